@@ -93,10 +93,150 @@ func ratExpr(info *types.Info, e ast.Expr) *big.Rat {
 		}
 		return nil
 	}
+	// a named constant: its own (untyped, exact) value, not the value rounded to the type of the use
+	if id, ok := e.(*ast.Ident); ok {
+		if k, ok := info.Uses[id].(*types.Const); ok {
+			if r := ratOf(k.Val()); r != nil {
+				return r
+			}
+		}
+	}
 	if tv, ok := info.Types[e]; ok && tv.Value != nil {
 		return ratOf(tv.Value)
 	}
+	// a local that is assigned exactly once (a hoisted sub-expression): its defining expression
+	if id, ok := e.(*ast.Ident); ok && ratLocals != nil {
+		if def, ok := ratLocals[info.Uses[id]]; ok && ratDepth < 8 {
+			ratDepth++
+			defer func() { ratDepth-- }()
+			return ratExpr(info, def)
+		}
+	}
 	return nil
+}
+
+// resolvedExprString renders e with single-assignment locals replaced by their defining expression
+// (`piA := m.piA` … `piA` reads as `m.piA`).
+func resolvedExprString(info *types.Info, e ast.Expr) string {
+	for i := 0; i < 4; i++ {
+		id, ok := e.(*ast.Ident)
+		if !ok || ratLocals == nil {
+			break
+		}
+		def, ok := ratLocals[info.Uses[id]]
+		if !ok {
+			break
+		}
+		e = def
+	}
+	return types.ExprString(e)
+}
+
+// ratLocals: single-assignment locals of the function being evaluated (set by withLocals).
+var ratLocals map[types.Object]ast.Expr
+var ratDepth int
+
+// singleAssignLocals maps every local variable of fd that is assigned exactly once to that expression.
+func singleAssignLocals(info *types.Info, fd *ast.FuncDecl) map[types.Object]ast.Expr {
+	cnt := map[types.Object]int{}
+	def := map[types.Object]ast.Expr{}
+	note := func(id *ast.Ident, rhs ast.Expr) {
+		o := info.Defs[id]
+		if o == nil {
+			o = info.Uses[id]
+		}
+		if o == nil {
+			return
+		}
+		cnt[o]++
+		def[o] = rhs
+	}
+	ast.Inspect(fd, func(n ast.Node) bool {
+		switch x := n.(type) {
+		case *ast.AssignStmt:
+			if len(x.Lhs) == len(x.Rhs) {
+				for i, l := range x.Lhs {
+					if id, ok := l.(*ast.Ident); ok {
+						if x.Tok == token.DEFINE || x.Tok == token.ASSIGN {
+							note(id, x.Rhs[i])
+						} else {
+							cnt[info.Uses[id]] += 2 // +=, -= …: not single assignment
+						}
+					}
+				}
+			} else {
+				for _, l := range x.Lhs {
+					if id, ok := l.(*ast.Ident); ok {
+						note(id, nil)
+						cnt[info.Uses[id]]++
+					}
+				}
+			}
+		case *ast.ValueSpec:
+			for i, id := range x.Names {
+				if i < len(x.Values) {
+					note(id, x.Values[i])
+				}
+			}
+		case *ast.IncDecStmt:
+			if id, ok := x.X.(*ast.Ident); ok {
+				cnt[info.Uses[id]] += 2
+			}
+		case *ast.RangeStmt:
+			for _, e := range []ast.Expr{x.Key, x.Value} {
+				if id, ok := e.(*ast.Ident); ok {
+					cnt[info.Defs[id]] += 2
+					cnt[info.Uses[id]] += 2
+				}
+			}
+		}
+		return true
+	})
+	out := map[types.Object]ast.Expr{}
+	for o, n := range cnt {
+		if n == 1 && def[o] != nil {
+			out[o] = def[o]
+		}
+	}
+	return out
+}
+
+// resultNames: the names under which result number k of fd travels: the named result itself and
+// every identifier returned at position k by an explicit return.
+func resultNames(fd *ast.FuncDecl, k int, fallback string) []string {
+	names := map[string]bool{fallback: true}
+	if fd.Type.Results != nil {
+		i := 0
+		for _, f := range fd.Type.Results.List {
+			if len(f.Names) == 0 {
+				i++
+				continue
+			}
+			for _, n := range f.Names {
+				if i == k {
+					names[n.Name] = true
+				}
+				i++
+			}
+		}
+	}
+	ast.Inspect(fd, func(n ast.Node) bool {
+		if _, isLit := n.(*ast.FuncLit); isLit {
+			return false
+		}
+		if rs, ok := n.(*ast.ReturnStmt); ok && k < len(rs.Results) {
+			if id, ok := rs.Results[k].(*ast.Ident); ok && id.Name != "nil" {
+				names[id.Name] = true
+			}
+		}
+		return true
+	})
+	var out []string
+	for n := range names {
+		out = append(out, n)
+	}
+	sort.Strings(out)
+	return out
 }
 
 type denseLit struct {
@@ -106,7 +246,7 @@ type denseLit struct {
 }
 
 // denseLiteralAssigned finds `name = mat.NewDense(r, c, []float64{...})` (or a field store m.name = …) in fd.
-func denseLiteralAssigned(info *types.Info, fd *ast.FuncDecl, name string) *denseLit {
+func denseLiteralAssigned(info *types.Info, fd *ast.FuncDecl, names ...string) *denseLit {
 	var out *denseLit
 	ast.Inspect(fd, func(n ast.Node) bool {
 		as, ok := n.(*ast.AssignStmt)
@@ -120,7 +260,7 @@ func denseLiteralAssigned(info *types.Info, fd *ast.FuncDecl, name string) *dens
 		case *ast.SelectorExpr:
 			lhs = x.Sel.Name
 		}
-		if lhs != name {
+		if !contains(names, lhs) {
 			return true
 		}
 		ce, ok := as.Rhs[0].(*ast.CallExpr)
@@ -142,14 +282,14 @@ func denseLiteralAssigned(info *types.Info, fd *ast.FuncDecl, name string) *dens
 	return out
 }
 
-func sliceLiteralAssigned(fd *ast.FuncDecl, name string) []ast.Expr {
+func sliceLiteralAssigned(fd *ast.FuncDecl, names ...string) []ast.Expr {
 	var out []ast.Expr
 	ast.Inspect(fd, func(n ast.Node) bool {
 		as, ok := n.(*ast.AssignStmt)
 		if !ok || len(as.Lhs) != 1 || len(as.Rhs) != 1 {
 			return true
 		}
-		if id, ok := as.Lhs[0].(*ast.Ident); !ok || id.Name != name {
+		if id, ok := as.Lhs[0].(*ast.Ident); !ok || !contains(names, id.Name) {
 			return true
 		}
 		if cl, ok := as.Rhs[0].(*ast.CompositeLit); ok {
@@ -242,8 +382,9 @@ func (c *Ctx) checkClosedFormEigens() {
 			continue
 		}
 		info := pk.TypesInfo
-		Ld := denseLiteralAssigned(info, fd, "leftvectors")
-		Rd := denseLiteralAssigned(info, fd, "rightvectors")
+		ratLocals = singleAssignLocals(info, fd)
+		Ld := denseLiteralAssigned(info, fd, resultNames(fd, 1, "leftvectors")...)
+		Rd := denseLiteralAssigned(info, fd, resultNames(fd, 2, "rightvectors")...)
 		Lm, ok1 := ratMatrix(info, Ld)
 		Rm, ok2 := ratMatrix(info, Rd)
 		if !ok1 || !ok2 {
@@ -266,7 +407,7 @@ func (c *Ctx) checkClosedFormEigens() {
 				ones = false
 			}
 		}
-		vals := sliceLiteralAssigned(fd, "val")
+		vals := sliceLiteralAssigned(fd, resultNames(fd, 0, "val")...)
 		v0 := len(vals) == 4 && ratExpr(info, vals[0]) != nil && ratExpr(info, vals[0]).Sign() == 0
 		L.Check(uni && ones && v0, "eigen-literal", label, "eigenvalue 0 with stationary left vector and unit right vector", c.P.Pos(fd.Pos()),
 			"val[0] = 0, L[0] = (1/4,1/4,1/4,1/4), R[·][0] = 1", fmt.Sprintf("stationary eigen-pair broken (val[0]=0: %v, uniform left vector: %v, unit right vector: %v)", v0, uni, ones))
@@ -313,14 +454,15 @@ func (c *Ctx) checkClosedFormEigens() {
 	label := "models/dna.(*F84Model).Eigens"
 	if fd != nil {
 		info := pk.TypesInfo
-		Ld := denseLiteralAssigned(info, fd, "leftvectors")
-		Rd := denseLiteralAssigned(info, fd, "rightvectors")
-		vals := sliceLiteralAssigned(fd, "val")
+		ratLocals = singleAssignLocals(info, fd)
+		Ld := denseLiteralAssigned(info, fd, resultNames(fd, 1, "leftvectors")...)
+		Rd := denseLiteralAssigned(info, fd, resultNames(fd, 2, "rightvectors")...)
+		vals := sliceLiteralAssigned(fd, resultNames(fd, 0, "val")...)
 		ok := Ld != nil && Rd != nil && len(Ld.elts) == 16 && len(Rd.elts) == 16 && len(vals) == 4
 		if ok {
 			want := []string{"m.piA", "m.piC", "m.piG", "m.piT"}
 			for j := 0; j < 4; j++ {
-				if types.ExprString(Ld.elts[j]) != want[j] {
+				if resolvedExprString(info, Ld.elts[j]) != want[j] {
 					ok = false
 				}
 			}
@@ -469,6 +611,129 @@ func polyOf(info *types.Info, e ast.Expr) (poly, bool) {
 	return nil, false
 }
 
+// applyDivisorPoly: in fn (or a closure it creates) a function literal handed to (*mat.Dense).Apply
+// returns `v / N` for its value parameter v; N, traced to a value of fn, is returned as a polynomial
+// over the frequency parameters (named by position from piNames) and the entries Q<i><j> read with
+// At(i, j).
+func (c *Ctx) applyDivisorPoly(fn *ssa.Function, piNames []string) (poly, bool) {
+	// frequency parameters: the last four float64 parameters of fn
+	var fparams []*ssa.Parameter
+	for _, p := range fn.Params {
+		if b, ok := p.Type().Underlying().(*types.Basic); ok && b.Kind() == types.Float64 {
+			fparams = append(fparams, p)
+		}
+	}
+	if len(fparams) < 4 {
+		return nil, false
+	}
+	fparams = fparams[len(fparams)-4:]
+	varOf := map[ssa.Value]string{}
+	for i, p := range fparams {
+		varOf[p] = piNames[i]
+	}
+	clos, bind := closuresOf(fn)
+	var polyOfV func(v ssa.Value, depth int) (poly, bool)
+	polyOfV = func(v ssa.Value, depth int) (poly, bool) {
+		if depth > 40 {
+			return nil, false
+		}
+		if n, ok := varOf[v]; ok {
+			return polyVar(n), true
+		}
+		switch x := v.(type) {
+		case *ssa.Const:
+			if r := ratOf(x.Value); r != nil {
+				return polyConst(r), true
+			}
+		case *ssa.UnOp:
+			if x.Op == token.SUB {
+				p, ok := polyOfV(x.X, depth+1)
+				if !ok {
+					return nil, false
+				}
+				return poly{}.add(p, -1), true
+			}
+			if x.Op == token.MUL {
+				// load of a captured cell or of a cell written once
+				if fv, ok := x.X.(*ssa.FreeVar); ok {
+					if cell, ok := bind[fv].(*ssa.Alloc); ok {
+						if val := singleCellValue(cell); val != nil {
+							return polyOfV(val, depth+1)
+						}
+					}
+				}
+				if a, ok := x.X.(*ssa.Alloc); ok {
+					if val := singleCellValue(a); val != nil {
+						return polyOfV(val, depth+1)
+					}
+				}
+			}
+		case *ssa.BinOp:
+			a, ok1 := polyOfV(x.X, depth+1)
+			b, ok2 := polyOfV(x.Y, depth+1)
+			if !ok1 || !ok2 {
+				return nil, false
+			}
+			switch x.Op {
+			case token.ADD:
+				return a.add(b, 1), true
+			case token.SUB:
+				return a.add(b, -1), true
+			case token.MUL:
+				return a.mul(b), true
+			}
+		case *ssa.Call:
+			if f := x.Common().StaticCallee(); f != nil && f.Name() == "At" && len(x.Common().Args) == 3 {
+				i, ok1 := constInt(x.Common().Args[1])
+				j, ok2 := constInt(x.Common().Args[2])
+				if ok1 && ok2 {
+					return polyVar("Q" + strconv.Itoa(int(i)) + strconv.Itoa(int(j))), true
+				}
+			}
+		}
+		return nil, false
+	}
+	for _, ci := range clos {
+		g := ci.fn
+		if len(g.Params) != 3 {
+			continue
+		}
+		// used as the callback of Apply?
+		isApply := false
+		if refs := ci.mc.Referrers(); refs != nil {
+			for _, ref := range *refs {
+				if call, ok := ref.(*ssa.Call); ok {
+					if f := call.Common().StaticCallee(); f != nil && f.Name() == "Apply" {
+						isApply = true
+					}
+				}
+			}
+		}
+		if !isApply {
+			continue
+		}
+		var out poly
+		found := false
+		allInstrs(g, func(in ssa.Instruction) {
+			ret, ok := in.(*ssa.Return)
+			if !ok || len(ret.Results) != 1 {
+				return
+			}
+			bo, ok := ret.Results[0].(*ssa.BinOp)
+			if !ok || bo.Op != token.QUO || bo.X != ssa.Value(g.Params[2]) {
+				return
+			}
+			if p, ok := polyOfV(bo.Y, 0); ok {
+				out, found = p, true
+			}
+		})
+		if found {
+			return out, true
+		}
+	}
+	return nil, false
+}
+
 func (c *Ctx) checkRateMatrixLiterals() {
 	L := c.L
 	L.Rule("rate-literal", "the 4x4 rate-matrix literal, read as polynomials in the model parameters: every row sums to the zero polynomial (generator), π_i·Q[i][j] and π_j·Q[j][i] are the same polynomial for all six pairs (detailed balance / reversibility), and the normaliser is the polynomial -Σ π_i·Q[i][i] (mean rate 1)")
@@ -559,6 +824,24 @@ func (c *Ctx) checkRateMatrixLiterals() {
 			}
 			return true
 		})
+		if !(okNorm && div) {
+			// the same on the SSA (through the inlined view when the normalisation lives in a helper):
+			// the callback handed to (*Dense).Apply returns v / N with N = -Σ π_i·q.At(i,i)
+			if r := c.fn("models/dna", "*"+mname, "InitModel"); r.ok() {
+				if p, ok := c.applyDivisorPoly(r.F, pi[:]); ok {
+					want := poly{}
+					for i := 0; i < 4; i++ {
+						want = want.add(polyVar(pi[i]).mul(polyVar(fmt.Sprintf("Q%d%d", i, i))), -1)
+					}
+					if p.add(want, -1).isZero() {
+						okNorm, div = true, true
+						det = "divisor of the Apply callback = " + p.String()
+					} else {
+						det = "divisor of the Apply callback = " + p.String()
+					}
+				}
+			}
+		}
 		L.Check(okNorm && div, "rate-literal", label, "normaliser -Σ π_i·Q_ii", c.P.Pos(fd.Pos()), det+"; every entry divided by norm", "the rate matrix is not scaled to one expected substitution per unit time: "+det+fmt.Sprintf(" (divided by norm: %v)", div))
 	}
 	L.Floor("rate-literal", 16, "3 models x (4 rows + 6 pairs + normaliser) (floor = half of the instances on the pinned tree: a clean-up may merge instances, a rule that sees nothing must still fail)")
